@@ -235,10 +235,10 @@ func init() {
 						cur = nil
 					}
 				case "delto":
+					// (a deletion of old versions does not touch the uncommitted writes: cur is kept)
 					if out.Err == nil && op.N >= chainStart && chainStart > 0 {
 						pruned = true
 					}
-					cur = nil
 				default:
 					if out.Err == nil {
 						cur = nil
